@@ -18,7 +18,10 @@ RULE = ('Programs from the typed generator G (bias: conditions of every '
         'numeric type in IF / WHILE / DO / LOOP / SELECT, mixed-type FOR, '
         'arguments of every type to every built-in and procedure), run with '
         'a drawn device script at O0, O2 and O1-g / O2-g under the safety '
-        'monitor.  Non-trivial: the run executed >= 1 conversion instruction '
+        'monitor; each program with an IF is run a second time with every '
+        'IF / ELSEIF / single-line IF condition negated, so that the '
+        'branches skipped by the first run execute.  Non-trivial: the run '
+        'executed >= 1 conversion instruction '
         'and >= 1 of {call with arguments, GOSUB, array access, device '
         'operation}.  Distinct by hash of (text, script).')
 ASSUMPTIONS = [
@@ -94,10 +97,42 @@ def safety(text, script, cfg, configs=CONFIGS):
     return list(seen.items()), info
 
 
+def flipped(prog):
+    """The same program with every IF condition negated (block IF, ELSEIF
+    and single-line IF): the branches the original run skips are executed.
+    Loops are left alone (they would not terminate).  None if there is no
+    IF."""
+    import copy
+    from qv import ast as A
+    p2 = copy.deepcopy(prog)
+    n = 0
+
+    def neg(c):
+        return A.Un('NOT', A.Paren(c), '&')
+    for s_, _ in A.walk_stmts(p2.body):
+        if isinstance(s_, A.If):
+            s_.arms = [(neg(c), b) for c, b in s_.arms]
+            n += 1
+        elif isinstance(s_, A.IfLine):
+            s_.cond = neg(s_.cond)
+            n += 1
+    return p2 if n else None
+
+
 def check(case, cfg):
     (prog, script, stats), style = case
     text = render.render(prog, style).text
     failures, info = safety(text, script, cfg)
+    fprog = flipped(prog) if not failures else None
+    flip_failed = False
+    if fprog is not None:
+        ftext = render.render(fprog, style).text
+        ffail, finfo = safety(ftext, script, cfg)
+        info['features'] |= finfo['features']
+        info['features'].add('flipped_variant')
+        if ffail:
+            failures = [('flipped:' + b, d) for b, d in ffail]
+            flip_failed = True
     key = digest([text, script])
     nontrivial = info['accepted'] and info['convs'] >= 1 and bool(
         info['features'] & {'call', 'gosub', 'array', 'io'})
@@ -108,7 +143,8 @@ def check(case, cfg):
         cls.append('static:' + s_)
     fl = []
     if failures:
-        enc = cases.encode_case(prog, script, style)
+        enc = cases.encode_case(fprog if flip_failed else prog, script,
+                                style, {'flipped': flip_failed})
         fl = [{'bucket': b, 'detail': d, 'case': enc} for b, d in failures]
     return {'key': key, 'nontrivial': nontrivial, 'classes': cls,
             'failures': fl, 'inconclusive': info.get('inconclusive'),
@@ -118,7 +154,8 @@ def check(case, cfg):
 
 def replay(obj, cfg):
     failures, info = safety(obj['text'], obj.get('script') or {}, cfg)
-    return {'failures': [{'bucket': b, 'detail': d, 'case': obj}
+    pre = 'flipped:' if obj.get('flipped') else ''
+    return {'failures': [{'bucket': pre + b, 'detail': d, 'case': obj}
                          for b, d in failures]}
 
 
@@ -128,13 +165,17 @@ def shrink(failure, cfg):
         return failure
     bucket = failure['bucket']
 
+    pre = 'flipped:' if failure['case'].get('flipped') else ''
+
     def still(p):
         fs, _ = safety(render.render(p, style).text, script, cfg)
-        return any(b == bucket for b, _ in fs)
+        return any(pre + b == bucket for b, _ in fs)
     small = SH.shrink_program(prog, still, max_tests=60)
     fs, _ = safety(render.render(small, style).text, script, cfg)
     for b, d in fs:
-        if b == bucket:
-            return {'bucket': b, 'detail': d,
-                    'case': cases.encode_case(small, script, style)}
+        if pre + b == bucket:
+            return {'bucket': pre + b, 'detail': d,
+                    'case': cases.encode_case(
+                        small, script, style,
+                        {'flipped': bool(failure['case'].get('flipped'))})}
     return failure
